@@ -28,6 +28,9 @@ pub struct Cache {
     measure_entries: [Option<CacheEntry<Size<f32>>>; CACHE_SIZE],
     /// Tracks if all cache entries are empty
     is_empty: bool,
+    /// (verification hook) entries keyed by the complete layout input, used in exact-key mode
+    #[cfg(taffy_verif)]
+    exact: std::vec::Vec<(std::string::String, RunMode, LayoutOutput)>,
 }
 
 impl Default for Cache {
@@ -39,6 +42,14 @@ impl Default for Cache {
 impl Cache {
     /// Create a new empty cache
     pub const fn new() -> Self {
+        #[cfg(taffy_verif)]
+        return Self {
+            final_layout_entry: None,
+            measure_entries: [None; CACHE_SIZE],
+            is_empty: true,
+            exact: std::vec::Vec::new(),
+        };
+        #[cfg(not(taffy_verif))]
         Self { final_layout_entry: None, measure_entries: [None; CACHE_SIZE], is_empty: true }
     }
 
@@ -114,6 +125,15 @@ impl Cache {
         available_space: Size<AvailableSpace>,
         run_mode: RunMode,
     ) -> Option<LayoutOutput> {
+        #[cfg(taffy_verif)]
+        if crate::verif_hooks::exact_key() {
+            if let Some(key) = crate::verif_hooks::current_key() {
+                if run_mode == RunMode::PerformHiddenLayout {
+                    return None;
+                }
+                return self.exact.iter().rev().find(|e| e.0 == key && e.1 == run_mode).map(|e| e.2);
+            }
+        }
         match run_mode {
             RunMode::PerformLayout => self
                 .final_layout_entry
@@ -160,6 +180,16 @@ impl Cache {
         run_mode: RunMode,
         layout_output: LayoutOutput,
     ) {
+        #[cfg(taffy_verif)]
+        if crate::verif_hooks::exact_key() && run_mode != RunMode::PerformHiddenLayout {
+            if let Some(key) = crate::verif_hooks::current_key() {
+                if run_mode == RunMode::PerformLayout {
+                    // like the real cache: a single final-layout entry, latest wins
+                    self.exact.retain(|e| e.1 != RunMode::PerformLayout);
+                }
+                self.exact.push((key, run_mode, layout_output));
+            }
+        }
         match run_mode {
             RunMode::PerformLayout => {
                 self.is_empty = false;
@@ -181,6 +211,8 @@ impl Cache {
             return ClearState::AlreadyEmpty;
         }
         self.is_empty = true;
+        #[cfg(taffy_verif)]
+        self.exact.clear();
         self.final_layout_entry = None;
         self.measure_entries = [None; CACHE_SIZE];
         ClearState::Cleared
